@@ -81,6 +81,17 @@ type Scenario struct {
 	// LooseErrs: every third job's error has an Is method that matches any
 	// foreign error (hence also any sentinel the scheduler may use internally).
 	LooseErrs bool `json:"loose_errs,omitempty"`
+	// CtxLikeErrs: every fourth job's error unwraps to context.DeadlineExceeded
+	// (a task that bounds its own work with a timeout returns such errors)
+	// although the scenario's context is untouched by it.
+	CtxLikeErrs bool `json:"ctx_like_errs,omitempty"`
+	// HoldAtGot: workers that have received a job (other than the cancelling
+	// one) are held at the hook point before they look at the job's context,
+	// until cancel() has returned (bounded). Such a job must not start.
+	HoldAtGot bool `json:"hold_at_got,omitempty"`
+	// EmitGoexitAt > 0: the state emitter kills the goroutine it is called on
+	// (runtime.Goexit) at its k-th report. Only termination and leaks are judged.
+	EmitGoexitAt int `json:"emit_goexit_at,omitempty"`
 }
 
 func (s *Scenario) hasGoexit() bool {
@@ -149,6 +160,16 @@ func Generate(seed uint64, family string, index int) *Scenario {
 		return genPrompt(r, index)
 	case "saturate":
 		return genSaturate(r, index)
+	case "cancelgot":
+		return genCancelGot(r, index)
+	case "fanin":
+		return genFanIn(r, index)
+	case "emitgx":
+		sc := genMix(r, index)
+		sc.Family = family
+		sc.Emitter = true
+		sc.EmitGoexitAt = 1 + r.Intn(6)
+		return sc
 	}
 	panic("unknown family " + family)
 }
@@ -273,6 +294,7 @@ func genMix(r *vc.Rand, index int) *Scenario {
 		sc.WaitOtherCtx = true
 	}
 	sc.LooseErrs = r.Chance(1, 6)
+	sc.CtxLikeErrs = r.Chance(1, 6)
 	return sc
 }
 
@@ -436,6 +458,56 @@ func genSaturate(r *vc.Rand, index int) *Scenario {
 		sc.Jobs = append(sc.Jobs, j)
 	}
 	sc.GateOpen = "cancelled"
+	return sc
+}
+
+// genCancelGot: a job cancels the context as its first action while its
+// siblings - all ready at the same time - have been handed to workers that are
+// held before they look at the context.
+func genCancelGot(r *vc.Rand, index int) *Scenario {
+	sc := &Scenario{Family: "cancelgot", Index: index}
+	sc.N = vc.Pick(r, 2, 3, 4, 8, 16)
+	sc.COE = r.Chance(1, 2)
+	sc.PerturbSeed = r.Uint64()
+	sc.Profile = 4 // no random perturbation: the hold is the perturbation
+	sc.HoldAtGot = true
+	nroot := 0
+	if r.Chance(1, 2) {
+		nroot = 1 // a root the whole fan-out depends on
+		sc.Jobs = append(sc.Jobs, JobSpec{})
+	}
+	k := 2 + r.Intn(sc.N) // canceller + siblings: at most N+1
+	for i := 0; i < k; i++ {
+		j := JobSpec{}
+		if nroot == 1 {
+			j.Deps = []int{0}
+		}
+		if i == 0 {
+			j.Beh = vc.Pick(r, BehCancelOK, BehCancelErr)
+		}
+		sc.Jobs = append(sc.Jobs, j)
+	}
+	return sc
+}
+
+// genFanIn: one job depends on more jobs than a 16-bit counter can hold, most
+// of them unfinished when it is enqueued.
+func genFanIn(r *vc.Rand, index int) *Scenario {
+	sc := &Scenario{Family: "fanin", Index: index}
+	sc.N = vc.Pick(r, 2, 4, 8)
+	sc.COE = r.Chance(1, 2)
+	sc.PerturbSeed = r.Uint64()
+	sc.Profile = 4
+	m := 65536 + 1 + r.Intn(5000)
+	for i := 0; i < m; i++ {
+		sc.Jobs = append(sc.Jobs, JobSpec{Gate: true})
+	}
+	deps := make([]int, m)
+	for i := range deps {
+		deps[i] = i
+	}
+	sc.Jobs = append(sc.Jobs, JobSpec{Deps: deps})
+	sc.GateOpen = "enqueued" // the gate opens once everything has been enqueued
 	return sc
 }
 
